@@ -53,6 +53,25 @@ theorem parse_payload_id_total (d : List UInt8) (p : AlcPkt) (oti : Oti) (h : pa
   · rw [h'] at h; cases h
     exact getPayloadId_total oti _ _ _ hinv.off_le hinv.pay_le hk
 
+/-- **parse_alc_pkt_offsets_in_range**: for every accepted datagram the four offsets the receiver later slices
+    with are ordered and inside the datagram:
+    `header_ext_offset ≤ lct.len = data_alc_header_offset ≤ data_payload_offset ≤ data.len()`
+    (and the payload-id window is exactly the scheme's payload-id length, the header at least 4 bytes and a
+    whole number of words).  Hence `pkt.data[pkt.data_payload_offset..]` and
+    `pkt.data[data_alc_header_offset..data_payload_offset]` cannot panic. -/
+theorem parse_alc_pkt_offsets_in_range (d : List UInt8) (p : AlcPkt) (h : parseAlcPkt (bytes d) = .ok p) :
+    p.lct.headerExtOffset ≤ p.lct.len ∧ p.lct.len = p.alcHeaderOffset ∧
+    p.alcHeaderOffset ≤ p.payloadOffset ∧ p.payloadOffset ≤ d.length ∧
+    p.payloadOffset = p.alcHeaderOffset + payloadIdLen p.lct.cp ∧
+    4 ≤ p.lct.headerExtOffset ∧ p.lct.len % 4 = 0 ∧ knownFec p.lct.cp = true := by
+  rcases parseAlcPkt_cases (bytes d) with h' | ⟨p', h', hinv⟩
+  · rw [h'] at h; cases h
+  · rw [h'] at h; cases h
+    have hl : (bytes d).length = d.length := by simp [bytes]
+    refine ⟨hinv.hdr.ext_le_len, hinv.alc_eq.symm, hinv.off_le, hl ▸ hinv.pay_le, ?_, hinv.hdr.ext_ge, hinv.hdr.len_mod,
+      hinv.known⟩
+    rw [hinv.pay_eq, hinv.alc_eq]; omega
+
 /-- the three together, as the receiver calls them -/
 theorem wire_total (d : List UInt8) :
     (parseAlcPkt (bytes d)).isPanic = false ∧
